@@ -184,7 +184,7 @@ def run(tier, seed, replay):
                 out.violation("quote-roundtrip:%s" % b.hex()[:16], "strconv.Unquote(fmt.Sprintf(\"%%+q\", s)) != s for bytes %s" % b.hex(), {"bytes": b.hex()})
     # ---- run-time half: GetParam on the real generated container (type and value, single vs multi chunk, env/envInt/todo, failing function)
     from . import rtcommon
-    shapes = ["say \"%lit%\"", "{\"r\": \"%n%%%\"}", "\"%lit%", "%lit%\"", "'%n%", "`%lit%`%%", "(%n%", "a \" b \" c \" %lit% %%",
+    shapes = ["%%n%%", "%%lit%%", "%%n%% x", "x %%lit%%", "%%n%%%%lit%%", "say \"%lit%\"", "{\"r\": \"%n%%%\"}", "\"%lit%", "%lit%\"", "'%n%", "`%lit%`%%", "(%n%", "a \" b \" c \" %lit% %%",
               "%%", "a%%b", "%lit%", "x%lit%y", "%n%", "%n%%n%", "%b%", " %b%", "%nil%", "%nil%!", "%f%", "%u%", "%s%", "%s%%s%", "%%%s%%%", "%env(\"GV_SET\")%", "%env(\"GV_NOPE\")%",
               "%env(\"GV_NOPE\", \"d\")%", "%envInt(\"GV_INT\")%", "%envInt(\"GV_INT\")%0", "%envInt(\"GV_BAD\")%", "%envInt(\"GV_NOPE\", 7)%", "%env(\"GV_EMPTY\")%", "%env(\"GV_EMPTY\", \"dflt\")%", "%envInt(\"GV_EMPTY\", 7)%", "%envInt(\"GV_EMPTY\")%", "x%env(\"GV_EMPTY\", \"dflt\")%y", "%envInt(\"GV_BAD\", 7)%", "%envInt(\"GV_Z\")%", "v=%envInt(\"GV_Z\")%", "%envInt(\"GV_NEG0\")%", "%envInt(\"GV_PLUS\")%", "%envInt(\"GV_BIG\")%", "%envInt(\"GV_MIN\")%", "%env(\"GV_Z\")%", "%todo()%", "%todo(\"msg\")%",
               "@x", "@", "!value 1", "!value al.X", "!tagged t", "$gontainer", "@x%%", "!value %n%", "@%lit%",
